@@ -70,4 +70,18 @@ CHECKS = {
         "level_note": "Trusts gc as reference, the generator's by-construction schedule independence (cross-checked by running gc at GOMAXPROCS 1 and 8 and under gc -race in race mode), and the channel readiness model (a disagreement with reality aborts with exit 2, never a violation).",
         "assumptions": ["programs stay inside the block catalogue", "no goroutine panics under Go semantics"],
     },
+    "C11": {
+        "id": "C11", "pkg": "c11", "test": "TestC11", "level": "exploration",
+        "runs": {"quick": 1500, "thorough": 150000},
+        "chunk": 400, "run_timeout_s": 20,
+        "rule": "each run draws a program from the concurrent generator, 70% in non-terminating mode (0-2 terminating blocks followed by: tight loop, loop with calls, unbounded recursion, nested loops, blocked send, blocked receive, select with/without default, select{}, range over a channel nobody closes, main waiting for a spinning child; optionally children that spin or block) and 30% terminating, and executes it under 6 seeded (schedule, cancellation plan) pairs: context kind (WithCancel, cancel of a parent, deadline reached by jumping the bubble's fake clock, already cancelled, Background, deadline never reached), firing rule (at a drawn scheduler step, at the first quiescence with the main goroutine blocked inside an operation, when nothing is runnable), scheduling policy. "
+                "evaluations = simulated executions; distinct_nontrivial = distinct (program, context-switch trace, position of the main goroutine when the event fired) triples in which the cancellation event fired",
+        "components": {"real": ["scriggo.Build", "Program.Run", "VM run loop done-flag poll, per-runFunc watcher goroutines, doneCase of OpSend/OpReceive/OpSelect/OpRange", "context package (real contexts on the bubble's fake clock)"],
+                       "stub": ["goroutine scheduling (seeded scheduler over the verif hooks)", "time: testing/synctest fake clock, advanced only by the scheduler"]},
+        "engine": "vmsim", "design_ref": "DESIGN.md section 5, C11",
+        "technique": "deterministic simulation with fault injection: seeded scheduler plus cancellation / deadline events injected at drawn scheduler steps and at blocked-in-operation instants, fake clock; latency measured in interpreted instructions",
+        "level_text": "Seeded search over (program, schedule, cancellation instant). Oracle in steps, never wall time: once the event fired and the bubble went quiescent (watchers ran), the main goroutine executes at most 4 more instructions and Run returns exactly ctx.Err(); a quiescent or step-capped bubble with Run outstanding is `cancel-ignored`; no host panic; if the code finished first Run returns nil and the output of a context-free run. Whether started goroutines also stop is recorded as an observation only (the statement demands that Run returns).",
+        "level_note": "Trusts testing/synctest's quiescence detection and fake clock and the channel readiness model (disagreement = exit 2). Blocking inside host (native) code is out of scope. Programs come from the block catalogue only.",
+        "assumptions": ["non-terminating programs never finish on their own within the step cap", "an already-cancelled context may yield either ctx.Err() or the program's own outcome"],
+    },
 }
